@@ -84,6 +84,9 @@ HintOf(e, run, pc, pf) ==
              \* imported documents keep the ids found in the file
              ELSE IF e.op = "Import" /\ e.path \in DOMAIN pf /\ pf[e.path][1] = "docs"
                   THEN [i \in DOMAIN pf[e.path][2] |-> DocId(pf[e.path][2][i])]
+             \* not observed (an operation in flight at a crash): supplied ids are kept
+             ELSE IF HasField(e, "docs") /\ e.op \in {"Insert", "InsertOne", "Save"}
+                  THEN [i \in DOMAIN e.docs |-> DocId(e.docs[i])]
              ELSE <<>>,
      sel |-> IF e.op \in BulkOps \cup {"CreateByQuery"} /\ HasColl(pc, e.c)
                 THEN SelOf(e, run, pc) ELSE {}]
